@@ -74,13 +74,20 @@ pub fn arith_case<F: FElem>(prop: &str, conf: Confidence, xs: &[F]) -> String {
         StatisticsOps::extend(&mut s, &v[b..].to_vec()).unwrap();
         enc_cires(&s.ci_mean(conf))
     });
+    // two partial states (the smaller one on the left) merged with `+`
+    let o7 = guarded(|| {
+        let a = v.len() / 3;
+        let l = Arithmetic::<F>::from_iter(&v[..a].to_vec()).unwrap();
+        let r = Arithmetic::<F>::from_iter(&v[a..].to_vec()).unwrap();
+        enc_cires(&(l + r).ci_mean(conf))
+    });
     let st = guarded(|| {
         let mut s = Arithmetic::<F>::new();
         StatisticsOps::extend(&mut s, &v).unwrap();
         stats_line(&s)
     });
     format!(
-        "{} arith {} {} {} => {} | {} | {} | {} | {} | {} | {}",
+        "{} arith {} {} {} => {} | {} | {} | {} | {} | {} | {} | {}",
         prop,
         F::TAG,
         enc_conf(&conf),
@@ -91,6 +98,7 @@ pub fn arith_case<F: FElem>(prop: &str, conf: Confidence, xs: &[F]) -> String {
         o4,
         o5,
         o6,
+        o7,
         st
     )
 }
@@ -147,6 +155,15 @@ pub fn c01(out: &mut Vec<String>, rng: &mut Rng, tier: &str) {
         out.push(arith_case::<f64>("C01", rand_conf(rng), &xs));
         let ys: Vec<f32> = xs.iter().map(|x| *x as f32).collect();
         out.push(arith_case::<f32>("C01", rand_conf(rng), &ys));
+    }
+    // magnitudes for which (Σx)² is out of range although Σx, every x² and Σx² are not
+    for (n, m32, m64) in [(200usize, 1e17f64, 1e152f64), (200, 5e17, 5e152), (1000, 1e17, 1e152), (100, 6e17, 8e152)] {
+        for sign in [1.0f64, -1.0] {
+            let xs: Vec<f32> = (0..n).map(|_| (sign * m32 * (1.0 + 1.5 * rng.unit())) as f32).collect();
+            out.push(arith_case::<f32>("C01", rand_conf(rng), &xs));
+            let ys: Vec<f64> = (0..n).map(|_| sign * m64 * (1.0 + 1.5 * rng.unit())).collect();
+            out.push(arith_case::<f64>("C01", rand_conf(rng), &ys));
+        }
     }
     // tiny spreads at ordinary and at small magnitudes (nanosecond-scale data)
     for _ in 0..(if tier == "thorough" { 200 } else { 30 }) {
